@@ -459,6 +459,26 @@ pub fn run_history(out: &mut Out, uni: &str, h: &[Op], record: bool) -> HistoryR
             }
         }
     }
+    // Vaults queried from a cursor that is NOT a live key (the vault was removed between two page fetches, or never existed):
+    // the answer is every registered vault whose key sorts after the cursor, in key order, up to the limit
+    {
+        let all: Vec<vf::VaultInfo> = { let mut v = vec![]; let mut cur: Option<Vec<u8>> = None;
+            for _ in 0..40 { let pg = w.vaults_page(cur.clone(), Some(30)); if pg.is_empty() { break; } cur = Some(pg.last().unwrap().asset_info_reference.clone()); v.extend(pg); } v };
+        for i in 0..w.u.len() {
+            let key = w.ref_bytes(i);
+            if all.iter().any(|v| v.asset_info_reference == key) { continue; }
+            for limit in [Some(1u32), Some(2), None] {
+                let got: Vec<Vec<u8>> = w.vaults_page(Some(key.clone()), limit).iter().map(|v| v.asset_info_reference.clone()).collect();
+                let n = limit.unwrap_or(10) as usize;
+                let mut want: Vec<Vec<u8>> = all.iter().map(|v| v.asset_info_reference.clone()).filter(|k| *k > key).collect();
+                want.sort(); want.truncate(n);
+                out.monitor_evals += 1;
+                if got != want && !cursor_unsafe(&all_keys_of(&w, "vaults")) {
+                    out.monitor_fail("C19", &format!("Vaults listed from a cursor that is not a registered key returned {} entries, expected the {} registered vaults after it", got.len(), want.len()), replay.clone());
+                }
+            }
+        }
+    }
     let _ = (pair_keys, inc_keys, trio_keys);
     if record {
         // every cursor: each registered pair as start_after with a few page sizes
@@ -551,6 +571,9 @@ fn corpus() -> Vec<(&'static str, Vec<Op>)> {
         // every unordered pair of the 7 assets: 21 pairs, so every page size 1..31 splits the listing somewhere
         ("main", (0..7).flat_map(|a| (0..a).map(move |b| if (a + b) % 2 == 0 { Op::CreatePair(a, b) } else { Op::CreatePair(b, a) })).chain((0..7).map(Op::CreateVault)).chain((0..7).map(Op::CreateIncentive))
             .chain((2..7).flat_map(|a| (1..a).map(move |b| Op::CreateTrio(a, 0, b)))).collect()),
+        // a hop executed through the router, the pair removed, the same hop again (must be refused), the pair re-created (new contract)
+        ("main", vec![Op::CreatePair(0, 1), Op::CreatePair(4, 0), Op::ExecHop(0, 1), Op::ExecHop(1, 0), Op::RemovePair(1, 0), Op::ExecHop(0, 1), Op::ExecHop(1, 0), Op::CreatePair(1, 0), Op::ExecHop(0, 1),
+                      Op::CreateVault(0), Op::CreateVault(1), Op::CreateVault(4), Op::CreateVault(5), Op::RemoveVault(1), Op::RemoveVault(4)]),
         // known finding: ambiguous concatenated keys
         ("ambiguous", vec![Op::CreatePair(0, 1), Op::CreatePair(2, 3), Op::ExecHop(2, 3), Op::RemovePair(3, 2), Op::CreatePair(3, 2), Op::CreatePair(1, 0), Op::CreateTrio(0, 1, 4), Op::CreateTrio(2, 3, 4)]),
         // known finding: a key that extends another key by a byte <= 1 is skipped by the cursor
